@@ -200,6 +200,9 @@ class FilterRows(Proc):
         r = rng.choice(desc['resources'])
         fs = r['schema']['fields']
 
+        if not fs:
+            return {'equals': [], 'not_equals': [], 'sel': sel}
+
         def cond():
             f = rng.choice(fs)
             v = gen_value(rng, f['type'])
